@@ -66,6 +66,11 @@ StepEv(e) ==
     /\ Check(bad = {}, IF k0 = 0 THEN "raws" ELSE IF KnownCtl(e.ctls[k0]) THEN WhyRaws(e, e.ctls[k0]) ELSE "unknown-controller",
              IF k0 = 0 THEN <<>> ELSE e.ctls[k0], <<e.lo, e.hi, e.raws, e.back, e.patends>>)
     /\ ok' = (ok /\ bad = {})
+  [] e.op = "filevalues" ->   \* a controller object the YAML does not list (stored in a type-specific record): every value of its
+                              \* declared range written to a file and loaded back, in affine runs - one run lo..hi with back = v
+    LET g == e.back = <<<<e.lo, e.lo, e.hi - e.lo + 1>>>> IN
+    /\ Check(g, "file-value-not-restored:" \o e.name, <<e.lo, e.hi>>, e.back)
+    /\ ok' = (ok /\ g)
   [] e.op = "pattern" ->  \* pattern_value over the complete range, shared by the listed controllers
     LET bad == {k \in 1..Len(e.ctls) : ~KnownCtl(e.ctls[k]) \/ ~PatEnvelope(CtlOf(e.ctls[k]), e.ctls[k][3], e.arr)}
         k0 == IF bad = {} THEN 0 ELSE CHOOSE k \in bad : TRUE IN
